@@ -51,6 +51,7 @@ static inline int myth_spin_unlock_body(myth_spinlock_t *lock) {
   myth_rwbarrier();
   MYTH_VERIF_POINT(MYTH_VS_SPIN_UNLOCK);
   lock->locked = 0;
+  MYTH_VERIF_POINT(MYTH_VS_SPIN_UNLOCKED);
   return 0;
 }
 
